@@ -5,6 +5,7 @@ import (
 	"go/token"
 	"go/types"
 	"math"
+	"strings"
 
 	"golang.org/x/tools/go/ssa"
 )
@@ -40,6 +41,9 @@ func (ex *Exec) instr(st *State, fr *Frame, instr ssa.Instruction) {
 		ex.panicIf(st, nilCond(p), "nil dereference", in)
 		if st.dead() {
 			return
+		}
+		if ex.tracked != nil {
+			ex.logAccess(st, fr, in, p)
 		}
 		fr.regs[in] = extendPath(dropNil(p), PathEl{Field: in.Field})
 	case *ssa.Index:
@@ -829,4 +833,23 @@ func intToFloatTree(t *Term, signed, is32 bool) *FloatV {
 		return &FloatV{C: t.Args[0], A: a, B: b}
 	}
 	return opaqueFloat
+}
+
+func (ex *Exec) logAccess(st *State, fr *Frame, in *ssa.FieldAddr, p Value) {
+	for _, a := range alts(p) {
+		pc, ok := a.V.(*PtrC)
+		if !ok || pc.Obj == 0 || len(pc.Path) != 0 {
+			continue
+		}
+		name, ok := ex.tracked[pc.Obj]
+		if !ok {
+			continue
+		}
+		stt := in.X.Type().Underlying().(*types.Pointer).Elem().Underlying().(*types.Struct)
+		fn := fr.fn.String()
+		if strings.Contains(fn, ".vs") || strings.Contains(fn, ".VsH_") {
+			continue // the harness's own set-up and oracle code
+		}
+		ex.accesses = append(ex.accesses, AccessEvent{Obj: name, Field: stt.Field(in.Field).Name(), Func: fn, Pos: ex.pos(in), Held: ex.heldLocks(st), Case: ex.curCase, PC: And(st.pcTerm(), a.G)})
+	}
 }
